@@ -97,13 +97,6 @@ impl UnixTerminal {
         let mut poll = Poll::new();
         poll.register(PollEvent::new(&tty).with_readable(true))?;
 
-        // switching terminal into a raw mode
-        // [Entering Raw Mode](https://viewsourcecode.org/snaptoken/kilo/02.enteringRawMode.html)
-        let termios_saved = rustix::termios::tcgetattr(&tty)?;
-        let mut termios = termios_saved.clone();
-        termios.make_raw();
-        rustix::termios::tcsetattr(&tty, rustix::termios::OptionalActions::Flush, &termios)?;
-
         // signal delivery
         let (signal_read, signal_write) = UnixStream::pair()?;
         let signal_delivery = SignalDelivery::with_pipe(
@@ -127,6 +120,15 @@ impl UnixTerminal {
             }
         });
         poll.register(PollEvent::new(&waker_read).with_readable(true))?;
+
+        // switching terminal into a raw mode
+        // [Entering Raw Mode](https://viewsourcecode.org/snaptoken/kilo/02.enteringRawMode.html)
+        // NOTE: this is the last step that can fail before the terminal object exists, from
+        //       here on an error drops the object, which restores the saved settings
+        let termios_saved = rustix::termios::tcgetattr(&tty)?;
+        let mut termios = termios_saved.clone();
+        termios.make_raw();
+        rustix::termios::tcsetattr(&tty, rustix::termios::OptionalActions::Flush, &termios)?;
 
         let capabilities = TerminalCaps::default();
         let mut term = Self {
@@ -189,6 +191,13 @@ impl UnixTerminal {
         })
     }
 
+    /// Whether a wake event is waiting in the events queue
+    fn wake_queued(&self) -> bool {
+        self.events_queue
+            .iter()
+            .any(|event| matches!(event, TerminalEvent::Wake))
+    }
+
     /// Close all descriptors free all the resources
     fn dispose(&mut self) -> Result<(), Error> {
         self.frames_drop();
@@ -221,16 +230,21 @@ impl UnixTerminal {
         ])
         .unwrap_or(()); // ignore write errors
 
-        // wait for device attributes report or error
+        // disable signal handler and forget signals flagged so far, a termination signal
+        // that has not been reported yet must not cut the wait for the epilogue short
+        self.signal_delivery.handle().close();
+        self.signal_delivery.pending().for_each(drop);
+
+        // wait for device attributes report or error, but not forever: termination signals
+        // are not seen any more and other events may keep coming
+        let deadline = Instant::now() + Duration::from_secs(3);
         loop {
             match self.poll(Some(Duration::from_secs(1))) {
                 Err(_) | Ok(Some(TerminalEvent::DeviceAttrs(_)) | None) => break,
+                _ if Instant::now() >= deadline => break,
                 _ => {}
             }
         }
-
-        // disable signal handler
-        self.signal_delivery.handle().close();
 
         // restore terminal settings
         rustix::termios::tcsetattr(
@@ -412,6 +426,12 @@ impl Terminal for UnixTerminal {
                 }
                 None => None,
             };
+            // never sleep while a wake event waits to be delivered
+            let delay = if self.wake_queued() {
+                Some(Duration::new(0, 0))
+            } else {
+                delay
+            };
 
             let tty_write = PollEvent::new(&self.tty).with_writable(!self.write_queue.is_empty());
             self.poll.register(tty_write)?;
@@ -434,18 +454,29 @@ impl Terminal for UnixTerminal {
             };
 
             // process pending output
+            let mut sent_some = false;
             if tty.is_writable() {
                 let tee = self.tee.as_mut();
+                // bytes accepted by the tty are consumed even if copying them to the tee fails,
+                // otherwise they would be sent a second time by the next poll
+                let mut tee_result = Ok(());
                 let send = self.write_queue.consume_with(|slice| {
                     let size = guard_io(self.tty.write(slice), 0)?;
-                    tee.map(|tee| tee.write(&slice[..size])).transpose()?;
+                    if let Some(tee) = tee {
+                        tee_result = tee.write_all(&slice[..size]);
+                    }
                     Ok::<_, Error>(size)
                 })?;
                 self.stats.send += send;
+                sent_some = send > 0;
+                tee_result?;
             }
 
             // process signals
             if signal.is_readable() {
+                // all flagged signals are consumed before a termination signal is reported,
+                // the signal pipe is already drained and would not announce them again
+                let mut quit = false;
                 for signal in self.signal_delivery.pending() {
                     match signal {
                         SIGWINCH => {
@@ -456,11 +487,12 @@ impl Terminal for UnixTerminal {
                                 self.write_all(GET_TERM_SIZE)?;
                             }
                         }
-                        SIGTERM | SIGINT | SIGQUIT => {
-                            return Err(Error::Quit);
-                        }
+                        SIGTERM | SIGINT | SIGQUIT => quit = true,
                         _ => {}
                     }
+                }
+                if quit {
+                    return Err(Error::Quit);
                 }
             }
 
@@ -503,6 +535,14 @@ impl Terminal for UnixTerminal {
 
             // indicate that first loop was executed
             first_loop = false;
+
+            // output is flushed before events are returned, except for wake requests: when
+            // a wake event is queued and the tty took no output in this round (not writable,
+            // or writable but the write was refused) return instead of waiting for the other
+            // side to drain the output
+            if !sent_some && self.wake_queued() {
+                break;
+            }
         }
 
         Ok(self.events_queue.pop_front())
@@ -610,6 +650,31 @@ impl AsFd for Tty {
 
 impl Write for Tty {
     fn write(&mut self, buf: &[u8]) -> std::io::Result<usize> {
+        #[cfg(feature = "verif-hooks")]
+        if let Some(fault) = verif::next_write_fault() {
+            match fault {
+                verif::WriteFault::Pass => {}
+                verif::WriteFault::Short(n) => {
+                    let n = n.min(buf.len());
+                    if n < buf.len() {
+                        verif::count(0);
+                    }
+                    return rustix::io::write(self, &buf[..n]).map_err(std::io::Error::from);
+                }
+                verif::WriteFault::Zero => {
+                    verif::count(1);
+                    return Ok(0);
+                }
+                verif::WriteFault::WouldBlock => {
+                    verif::count(2);
+                    return Err(std::io::ErrorKind::WouldBlock.into());
+                }
+                verif::WriteFault::Interrupted => {
+                    verif::count(3);
+                    return Err(std::io::ErrorKind::Interrupted.into());
+                }
+            }
+        }
         rustix::io::write(self, buf).map_err(std::io::Error::from)
     }
 
@@ -777,5 +842,60 @@ impl PollEvents<'_> {
 
     pub fn len(&self) -> usize {
         self.matched.len()
+    }
+}
+
+/// Verification hooks (add-only, compiled only with the `verif-hooks` feature): a script of faults for
+/// the next calls of `Tty::write`, so that short writes, zero-byte writes, EAGAIN and EINTR of the tty can
+/// be forced at chosen points of a session.
+#[cfg(feature = "verif-hooks")]
+pub mod verif {
+    use std::collections::VecDeque;
+    use std::sync::Mutex;
+    use std::sync::atomic::{AtomicUsize, Ordering};
+
+    #[derive(Clone, Copy, Debug)]
+    pub enum WriteFault {
+        /// perform the write normally
+        Pass,
+        /// hand only the first `n` bytes of the slice to the tty
+        Short(usize),
+        /// report `Ok(0)` without writing
+        Zero,
+        /// fail with EAGAIN
+        WouldBlock,
+        /// fail with EINTR
+        Interrupted,
+    }
+
+    static SCRIPT: Mutex<VecDeque<WriteFault>> = Mutex::new(VecDeque::new());
+    static COUNTS: [AtomicUsize; 4] = [
+        AtomicUsize::new(0),
+        AtomicUsize::new(0),
+        AtomicUsize::new(0),
+        AtomicUsize::new(0),
+    ];
+
+    /// Faults for the next calls of `Tty::write`, one per call; afterwards writes are normal again
+    pub fn set_write_script(script: Vec<WriteFault>) {
+        *SCRIPT.lock().unwrap_or_else(|e| e.into_inner()) = script.into();
+    }
+
+    /// Number of short writes, zero-byte writes, EAGAIN and EINTR faults delivered so far
+    pub fn write_fault_counts() -> [usize; 4] {
+        [
+            COUNTS[0].load(Ordering::SeqCst),
+            COUNTS[1].load(Ordering::SeqCst),
+            COUNTS[2].load(Ordering::SeqCst),
+            COUNTS[3].load(Ordering::SeqCst),
+        ]
+    }
+
+    pub(super) fn next_write_fault() -> Option<WriteFault> {
+        SCRIPT.lock().unwrap_or_else(|e| e.into_inner()).pop_front()
+    }
+
+    pub(super) fn count(kind: usize) {
+        COUNTS[kind].fetch_add(1, Ordering::SeqCst);
     }
 }
